@@ -193,6 +193,21 @@ def histories(res):
     for i in range(n):
         h = gen_history(rng, names, kinds, cmds, bodies, rng.randint(3, 40))
         hs.append((h, rng.choice(FINAL)))
+    # numbers that are turned into words (ordinals, fractions) at the edges of every language's number tables: powers of a
+    # thousand, with and without leading digits, as exponent, root index, numerator and denominator
+    from . import speechtexts as ST
+    edge = []
+    for k in range(3, 28, 3):
+        for lead in ("1", "12", "345", "1001"):
+            edge.append(lead + "0" * k)
+    edge += ["1" + "0" * 15, "999999999999999999", "1000000000000000000000", "20", "100", "101", "1000", "1001", "2000000", "0", "00", "007"]
+    for lang in ST.languages():
+        for style in ("ClearSpeak", "SimpleSpeak"):
+            h = [["set_rules_dir", C.RULES], ["set_preference", "Language", lang], ["set_preference", "SpeechStyle", style]]
+            for nme in (edge if tier != "quick" else edge[::3] + edge[-12:]):
+                for t in ("<msup><mi>x</mi><mn>%s</mn></msup>", "<mroot><mi>x</mi><mn>%s</mn></mroot>", "<mfrac><mn>1</mn><mn>%s</mn></mfrac>", "<mfrac><mn>%s</mn><mn>3</mn></mfrac>"):
+                    h += [["set_mathml", X.math(t % nme)], ["get_spoken_text"]]
+            hs.append((h, rng.choice(FINAL)))
     # the arity sweep: ill-formed and borderline elements one after the other in one session, a query after each
     sweep = arity_sweep(tier)
     for i in range(0, len(sweep), 40):
